@@ -1,4 +1,4 @@
-CONSTANTS Kinds = {"M","O","Q","CM","CO"} MaxLog = 3 MaxPush = 3 SliceLim = 1 ChanLim = 1 UseSeq = TRUE Tracked0 = FALSE MaxCrash = 1 Fixed = TRUE SimDepth = 99
+CONSTANTS Kinds = {"M","O","Q","CM","CO"} MaxLog = 3 MaxPush = 3 SliceLim = 1 ChanLim = 1 UseSeq = TRUE Tracked0 = FALSE MaxCrash = 1 Fixed = TRUE TooLongAt = 0 ChanTooLongAt = 0 DiffLimit = 0 ChanTLPush = FALSE SimDepth = 99
 INIT Init
 NEXT NextPairs
 VIEW View
